@@ -37,6 +37,13 @@ type CallsiteClause struct {
 	Src    string
 }
 
+// RunsClause: `runs <param> with g = E, h = F` - the callee calls its function parameter once, synchronously;
+// while it runs the caller's ghost variables g, h have the given values (e.g. held = true under the callee's lock).
+type RunsClause struct {
+	Param  string
+	Ghosts []AtClause
+}
+
 type Contract struct {
 	Key       string
 	Pkg       string // package path of the file it was declared in
@@ -64,6 +71,7 @@ type Contract struct {
 	Ghosts    []AtClause
 	At        map[string][]AtClause
 	Callsites []CallsiteClause
+	Runs      []RunsClause // the function synchronously invokes a function-typed argument exactly once
 	Modifies  []string // frame: the only heap locations the function may write (Type.field | elems | maps | ptrs)
 	HasFrame  bool
 	Stable    []string // heap fields (Type.field) assumed not to be written by any callee of this function
@@ -308,6 +316,22 @@ func (cs *ContractSet) loadFile(path, pkgPath string) error {
 				// callers may rely on the function not panicking although this is not proved here
 				cur.AssumeNoPanic = true
 				cs.Assumes = append(cs.Assumes, fmt.Sprintf("%s: assumed not to panic (%s)", cur.Key, rest))
+			case "runs":
+				param, with, _ := strings.Cut(rest, " with ")
+				rc := RunsClause{Param: strings.TrimSpace(param)}
+				for _, as := range strings.Split(with, ",") {
+					as = strings.TrimSpace(as)
+					if as == "" {
+						continue
+					}
+					n, ex, _ := strings.Cut(as, "=")
+					x, err := parse(strings.TrimSpace(ex))
+					if err != nil {
+						return err
+					}
+					rc.Ghosts = append(rc.Ghosts, AtClause{Kind: "ghost", Name: strings.TrimSpace(n), Expr: x})
+				}
+				cur.Runs = append(cur.Runs, rc)
 			case "safe":
 				cur.Safe = true
 			case "stable":
